@@ -180,7 +180,7 @@ Definition eps_q : Q := 1 # (2 ^ 50)%positive.
 Definition dedup_nat (l : list nat) : list nat := nodup Nat.eq_dec l.
 (* q is a binary64 number: m * 2^e with |m| < 2^53, e >= -1074, below the overflow threshold.  When the
    exact value of a floating-point operation is such a number the operation is EXACT, the code's decision
-   is the exact decision and NO borderline alternative is admitted (DESIGN 4.5 applies only where rounding
+   is the exact decision and NO borderline alternative is accepted (DESIGN 4.5 applies only where rounding
    can occur). *)
 Definition f64_exact (q : Q) : bool :=
   let r := Qred q in
